@@ -18,6 +18,9 @@ SOLVE_ASSUMPTIONS = [
 ]
 
 
+ALIAS_RUN = ("circuit3_alias", dict(decision=[3, 4, 0, 1, 2], domh="max"))
+
+
 def pairwise_configs():
     """a small set of configurations covering every pair of values of (consistency, variable heuristic, value heuristic)"""
     allc = list(itertools.product(CONS, VARH, DOMH))
@@ -62,6 +65,9 @@ def plan(tier, seed, models=None, extra_default=True):
     for name, dec in (("sum_eq", [0]), ("max_eq", [0, 1]), ("obj_shared_offset", [0])):
         if name in names:
             runs.append((name, dict(decision=dec)))
+    # decisions on the table first, largest value first (the successors are then instantiated by propagation only)
+    if "circuit3_alias" in names:
+        runs.append(ALIAS_RUN)
     # decision-domain subsets that do NOT determine every variable: whatever is reported must still be a solution (C01); the
     # enumeration need not be complete (C02 is about full decision sets) and the search may end by refusing to go on
     for name, dec in (("alldiff3", [0]), ("lt", [1]), ("alldiff_lt", [2]), ("queens_like", [1]), ("max_leq_min_geq", [0]), ("geq_leq", [0])):
